@@ -1,5 +1,6 @@
 """C05 — serial UKF correction equals the standard additive UKF correction (DESIGN.md §5 C05)."""
 import math
+import re
 import numpy as np
 from vlib import caseio, gen
 
@@ -91,7 +92,7 @@ def generate(rng, tier):
         alpha, beta, kappa, wc0, cc = ut_params(rng, n)
         H = gen.matrix(rng, m, n); G = gen.matrix(rng, m, n, 0.5); G2 = gen.matrix(rng, m, n, 0.5)
         b = gen.matrix(rng, m, 1); g = gen.matrix(rng, m, 1)
-        means = gen.matrix(rng, n, comps, 2.0)
+        means = gen.matrix(rng, n, 1, 2.0) + gen.matrix(rng, n, comps, rng.choice([0.1, 0.3, 1.0]))
         covs, cond, rankdef = [], 1.0, 0
         for i in range(comps):
             if n >= 2 and rng.random() < 0.1:
@@ -158,6 +159,36 @@ def case_cond(c, model):
     return cond
 
 
+def lik_scale(c, model, i):
+    """conditioning of the UVR likelihood of component i: cond(I + Y^T R^-1 Y) * (1 + nu^T R^-1 nu): the quadratic form
+    nu^T R^-1 (I - Y C Y^T R^-1) nu cancels from magnitude nu^T R^-1 nu, through the inverse of C^-1."""
+    if model is None or model.get("f_Y%d" % i) is None:
+        return LIK_SCALE_MAX          # no model output: the loosest tolerance that is still accepted
+    Y, nu, R = model.get("f_Y%d" % i), model.get("f_innov%d" % i), c.get("Rfull")
+    if not (np.all(np.isfinite(Y)) and np.all(np.isfinite(nu))):
+        return LIK_SCALE_MAX
+    Ri = np.linalg.inv(R)
+    C = np.eye(Y.shape[1]) + Y.T @ Ri @ Y
+    return float(np.linalg.cond(C)) * (1.0 + float((nu.T @ Ri @ nu)[0, 0]))
+
+
+EXCLUDED = {"likelihood_ill_conditioned": 0}
+LIK_SCALE_MAX = 1e7      # beyond this the likelihood comparison is excluded (and counted): the tolerance would exceed 1e-3 in the log
+LIK_RTOL_MODEL, LIK_RTOL_UKF = 1e-11, 1e-10    # measured: |log a - log b| <= 2e-14 * lik_scale over 1200 cases
+
+
+def lik_close(a, b, tol):
+    """log-domain comparison of two likelihood values"""
+    if a is None or b is None:
+        return False
+    a, b = float(a), float(b)
+    if a == b or (math.isnan(a) and math.isnan(b)):
+        return True
+    if not (a > 0 and b > 0):
+        return max(a, b) < 1e-290 and min(a, b) >= 0     # one of them underflowed
+    return abs(math.log(a) - math.log(b)) <= tol
+
+
 def pscale(c):
     return max(1.0, float(np.max(np.abs(c.get("covs")))), float(np.max(np.abs(c.get("means")))))
 
@@ -178,11 +209,14 @@ def compare(c, impl, model):
         liks.append("u_lik%d" % i)
     d += caseio.compare_fields(impl, model, fields, atol=1e-12, rtol=1e-9, scale=cond * pscale(c))
     for f in liks:
+        i = int(re.search(r"(\d+)$", f).group(1))
+        ls = lik_scale(c, model, i)
+        if ls > LIK_SCALE_MAX:
+            EXCLUDED["likelihood_ill_conditioned"] += 1
+            continue
         a, b = impl.get(f), model.get(f)
-        if a is None or b is None:
-            d.append("%s: missing" % f)
-        elif not caseio.close(a, b, 1e-300, 1e-9 * cond):
-            d.append("%s: impl=%r model=%r (rtol %.3g)" % (f, a, b, 1e-9 * cond))
+        if not lik_close(a, b, LIK_RTOL_MODEL * ls):
+            d.append("%s: impl=%r model=%r (log tol %.3g)" % (f, a, b, LIK_RTOL_MODEL * ls))
     return d
 
 
@@ -226,14 +260,16 @@ def oracle(c, impl, model):
                 v.append(("C05:sukf-ne-ukf:mean:%s" % flag, "component %d: max diff %.3g > %.3g" % (i, caseio.maxdiff(sm, um), tol)))
             if not caseio.close(sc_, uc, tol, 0):
                 v.append(("C05:sukf-ne-ukf:cov:%s" % flag, "component %d: max diff %.3g > %.3g" % (i, caseio.maxdiff(sc_, uc), tol)))
-            if not caseio.close(sl, ul, 1e-300, 1e-7 * cond):
-                v.append(("C05:sukf-ne-ukf:likelihood:%s" % flag, "component %d: %r vs %r" % (i, sl, ul)))
+            ls = lik_scale(c, model, i)
+            if ls <= LIK_SCALE_MAX and not lik_close(sl, ul, LIK_RTOL_UKF * ls):
+                v.append(("C05:sukf-ne-ukf:likelihood:%s" % flag, "component %d: %r vs %r (log tol %.3g)" % (i, sl, ul, LIK_RTOL_UKF * ls)))
     if mult and c.has("Rblock"):
         for i in range(comps):
             tol = 1e-7 * cond * pscale(c)
             if not (caseio.close(impl.get("r_mean%d" % i), impl.get("f_mean%d" % i), tol, 0)
                     and caseio.close(impl.get("r_cov%d" % i), impl.get("f_cov%d" % i), tol, 0)
-                    and caseio.close(impl.get("r_lik%d" % i), impl.get("f_lik%d" % i), 1e-300, 1e-7 * cond)):
+                    and (lik_scale(c, model, i) > LIK_SCALE_MAX
+                         or lik_close(impl.get("r_lik%d" % i), impl.get("f_lik%d" % i), LIK_RTOL_UKF * lik_scale(c, model, i)))):
                 v.append(("C05:reduced-ne-full", "component %d" % i))
     return v
 
@@ -248,7 +284,8 @@ def histogram(cases):
             "sub_size": count(lambda c: c.meta["s"]), "state_n": count(lambda c: c.meta["n"]),
             "components": count(lambda c: c.meta["comps"]), "multiple": count(lambda c: c.meta["mult"]),
             "equal_blocks": count(lambda c: c.meta["equal"]), "rank_deficient_P": count(lambda c: c.meta["rankdef"]),
-            "cond_decade": count(lambda c: gen.decade(float(c.meta["cond"])))}
+            "cond_decade": count(lambda c: gen.decade(float(c.meta["cond"]))),
+            "likelihood_comparisons_excluded_ill_conditioned": EXCLUDED["likelihood_ill_conditioned"]}
 
 
 LEVEL_TEXT = ("Proof: the model of SUKFCorrection::correctStep / getLikelihood (sigma points, propagation through an arbitrary measurement "
